@@ -449,6 +449,70 @@ def main(argv):
     ubsan = set()
     engines = {}
 
+    # ----------------------------------------------- confirm + minimise
+    violations = []
+    seen_sites = set()
+    done_cands = set()
+    fdir = os.environ.get('VF_FAILDIR') or os.path.join(VERIF, 'failures')
+
+    def process_candidates():
+        """confirm (fresh process), minimise crash-type candidates, triple
+        replay; fills `violations`. Called after every tier so that only a
+        *confirmed* violation stops the later tiers."""
+        for cand in candidates:
+            if id(cand) in done_cands:
+                continue
+            done_cands.add(id(cand))
+            cfgname = cand.config
+            replay_bin = bins[cfgname]['replay']
+            env = dict(env0)
+            if cand.engine == 'sweep':
+                os.makedirs(fdir, exist_ok=True)
+                dst = os.path.join(fdir, '%s.%s.sweep' % (prop, cfgname))
+                shutil.copy(cand.path, dst)
+                violations.append((cand, 'sweep', dst))
+                continue
+            bad, out = replay_once(replay_bin, env, cand.path)
+            if not bad:
+                inconclusive.append('candidate from %s did not reproduce in a '
+                                    'fresh process: %s' % (cand.engine, cand.path))
+                continue
+            site = failure_site(out)
+            if site in seen_sites and not args.keep_going:
+                continue       # same site already reported: skip before minimising
+            path = cand.path
+            if cand.engine in ('rapidcheck-crash', 'libfuzzer', 'regression-crash',
+                               'dump-replay-crash'):
+                path = minimise(replay_bin, env, cand.path, site)
+            n_ok = 0
+            for _ in range(3):
+                bad, out = replay_once(replay_bin, env, path)
+                if bad:
+                    n_ok += 1
+            need = spec.get('confirm', 3)
+            if n_ok < need:
+                inconclusive.append('candidate reproduced %d/3 times only: %s' %
+                                    (n_ok, path))
+                continue
+            seen_sites.add(site)
+            os.makedirs(fdir, exist_ok=True)
+            data = open(path, 'rb').read()
+            name = '%s-%s-%s.case' % (prop, cfgname,
+                                      hashlib.sha1(data).hexdigest()[:10])
+            dst = os.path.join(fdir, name)
+            with open(dst, 'wb') as f:
+                f.write(data)
+            with open(dst + '.txt', 'w') as f:
+                f.write('engine=%s config=%s site=%s\n' % (cand.engine, cfgname, site))
+                f.write(out)
+            violations.append((cand, site, dst))
+
+    def stop_now():
+        """true when a confirmed (non-sweep) violation exists and the caller did
+        not ask to keep going"""
+        process_candidates()
+        return (not args.keep_going) and any(v[1] != 'sweep' for v in violations)
+
     # ------------------------------------------------- regression + sweep
     corpus = sorted(glob.glob(os.path.join(VERIF, 'corpus', prop, '*.case')))
     known_witness = set(os.path.join(VERIF, k['witness']) for k in known
@@ -502,7 +566,7 @@ def main(argv):
 
     # ----------------------------------- named partitioned sweeps (thorough)
     for sw in tspec.get('extra_sweeps', []):
-        if candidates and not args.keep_going:
+        if stop_now():
             break
         cmds = []
         meta = []
@@ -547,7 +611,7 @@ def main(argv):
     dump_configs = [c for c in configs if 'rc' not in bins[c]]
     dump_from = tspec.get('dump_from', rc_configs[0] if rc_configs else None)
     dumps = []
-    if rc_configs and not ([c_ for c_ in candidates if c_.engine != 'sweep'] and not args.keep_going):
+    if rc_configs and not stop_now():
         shares = tspec.get('shares') or {c: 1 for c in rc_configs}
         total_share = sum(shares.get(c, 1) for c in rc_configs)
         nworkers = tspec.get('workers', NCPU)
@@ -612,7 +676,7 @@ def main(argv):
                 return 2
 
     # -------------------------------- replay generated cases (MSan etc.)
-    if dump_configs and dumps and not (candidates and not args.keep_going):
+    if dump_configs and dumps and not stop_now():
         cmds = []
         meta = []
         for c in dump_configs:
@@ -658,7 +722,7 @@ def main(argv):
                 return 2
 
     # ----------------------------------------------------------- libFuzzer
-    if use_fuzz and not (candidates and not args.keep_going):
+    if use_fuzz and not stop_now():
         nworkers = tspec.get('fuzz_workers', NCPU)
         secs = max(5, int(tspec['fuzz_s'] * scale))  # 0 would mean unlimited
         cmds = []
@@ -705,53 +769,7 @@ def main(argv):
                 inconclusive.append('libFuzzer worker %s killed at wall-clock '
                                     'limit' % tag)
 
-    # ----------------------------------------------- confirm + minimise
-    violations = []
-    seen_sites = set()
-    fdir = os.environ.get('VF_FAILDIR') or os.path.join(VERIF, 'failures')
-    for cand in candidates:
-        cfgname = cand.config
-        replay_bin = bins[cfgname]['replay']
-        env = dict(env0)
-        if cand.engine == 'sweep':
-            os.makedirs(fdir, exist_ok=True)
-            dst = os.path.join(fdir, '%s.%s.sweep' % (prop, cfgname))
-            shutil.copy(cand.path, dst)
-            violations.append((cand, 'sweep', dst))
-            continue
-        bad, out = replay_once(replay_bin, env, cand.path)
-        if not bad:
-            inconclusive.append('candidate from %s did not reproduce in a '
-                                'fresh process: %s' % (cand.engine, cand.path))
-            continue
-        site = failure_site(out)
-        path = cand.path
-        if cand.engine in ('rapidcheck-crash', 'libfuzzer', 'regression-crash', 'dump-replay-crash'):
-            path = minimise(replay_bin, env, cand.path, site)
-        n_ok = 0
-        for _ in range(3):
-            bad, out = replay_once(replay_bin, env, path)
-            if bad:
-                n_ok += 1
-        need = spec.get('confirm', 3)
-        if n_ok < need:
-            inconclusive.append('candidate reproduced %d/3 times only: %s' %
-                                (n_ok, path))
-            continue
-        if site in seen_sites and not args.keep_going:
-            continue
-        seen_sites.add(site)
-        os.makedirs(fdir, exist_ok=True)
-        data = open(path, 'rb').read()
-        name = '%s-%s-%s.case' % (prop, cfgname,
-                                  hashlib.sha1(data).hexdigest()[:10])
-        dst = os.path.join(fdir, name)
-        with open(dst, 'wb') as f:
-            f.write(data)
-        with open(dst + '.txt', 'w') as f:
-            f.write('engine=%s config=%s site=%s\n' % (cand.engine, cfgname, site))
-            f.write(out)
-        violations.append((cand, site, dst))
+    process_candidates()
 
     # ---------------------------------------------------- known findings
     known_lines = []
